@@ -27,12 +27,45 @@ fn chan(id: u16) -> ChanSpec {
     }
 }
 
+/// A partially reliable channel that shares the association with the channels under test. C01 asserts
+/// nothing about what it delivers (C12 does); it is there because what happens to its chunks
+/// (abandonment, FORWARD-TSN) must not cost a reliable channel a message.
+fn background_chan(id: u16, rel: Rel, ordered: bool) -> ChanSpec {
+    ChanSpec {
+        id,
+        ordered,
+        rel,
+        inband_by: None,
+        label: format!("bg{id}"),
+        protocol: String::new(),
+    }
+}
+
+fn background_strategy() -> impl Strategy<Value = Vec<(Rel, bool)>> {
+    let one = (
+        prop_oneof![
+            3 => (0..3u16).prop_map(Rel::Rexmit),
+            1 => (20..200u16).prop_map(Rel::Timed),
+        ],
+        any::<bool>(),
+    );
+    prop_oneof![
+        13 => Just(Vec::new()),
+        5 => prop::collection::vec(one.clone(), 1..=1),
+        2 => prop::collection::vec(one, 2..=2),
+    ]
+}
+
 fn workload_strategy(max_msgs: usize, max_size: u32) -> impl Strategy<Value = Workload> {
-    (1..=3usize).prop_flat_map(move |nch| {
-        let chans: Vec<ChanSpec> = (0..nch).map(|i| chan(100 + i as u16)).collect();
+    ((1..=3usize), background_strategy()).prop_flat_map(move |(nch, bg)| {
+        let mut chans: Vec<ChanSpec> = (0..nch).map(|i| chan(100 + i as u16)).collect();
+        for (i, (rel, ordered)) in bg.iter().enumerate() {
+            chans.push(background_chan(200 + i as u16, rel.clone(), *ordered));
+        }
+        let total = chans.len();
         let op = (
             side_strategy(),
-            0..nch,
+            0..total,
             size_strategy(max_size),
             prop_oneof![4 => Just(0u16), 2 => 1..10u16, 1 => 10..80u16],
         )
@@ -50,6 +83,16 @@ fn workload_strategy(max_msgs: usize, max_size: u32) -> impl Strategy<Value = Wo
     })
 }
 
+fn rwnd_strategy() -> impl Strategy<Value = u32> {
+    prop_oneof![
+        6 => Just(128 * 1024u32),
+        1 => Just(4 * 1024u32),
+        1 => Just(8 * 1024u32),
+        1 => Just(16 * 1024u32),
+        1 => Just(32 * 1024u32),
+    ]
+}
+
 fn net_strategy() -> impl Strategy<Value = NetSpec> {
     (
         prop::collection::vec(setup_rule(), 0..3),
@@ -57,14 +100,16 @@ fn net_strategy() -> impl Strategy<Value = NetSpec> {
         prop::bool::weighted(0.45),
         tsn_strategy(),
         tsn_strategy(),
+        rwnd_strategy(),
     )
-        .prop_map(|(setup, data, use_setup, tsn_a, tsn_b)| {
+        .prop_map(|(setup, data, use_setup, tsn_a, tsn_b, rwnd)| {
             let mut rules = if use_setup { setup } else { vec![] };
             rules.extend(data);
             NetSpec {
                 rules,
                 tsn_a,
                 tsn_b,
+                rwnd,
                 ..NetSpec::default_fast()
             }
         })
@@ -100,6 +145,53 @@ fn tail_gap_strategy() -> impl Strategy<Value = Case> {
                     rules,
                     tsn_a: tsn,
                     tsn_b: tsn,
+                    ..NetSpec::default_fast()
+                },
+            }
+        })
+}
+
+/// Many rounds of "one small message, its first transmission is lost, nothing else is in flight":
+/// each loss is a tail loss repaired by the probe / T3 path, over and over on one association, with a
+/// small or default receive window; afterwards the network is perfect and more messages follow.
+/// (Sender-side accounting that drifts a little per repaired tail loss only shows after many rounds.)
+fn tail_loss_rounds_strategy() -> impl Strategy<Value = Case> {
+    (
+        side_strategy(),
+        0..4usize,
+        6..28usize,
+        prop_oneof![3 => 900..1172u32, 1 => 100..900u32, 1 => 1173..2400u32],
+        prop_oneof![Just(60u16), 90..160u16, 160..300u16],
+        2..7usize,
+        prop_oneof![3 => Just(2u16), 1 => Just(3u16)],
+        rwnd_strategy(),
+        tsn_strategy(),
+    )
+        .prop_map(|(side, warm, rounds, size, gap_ms, tail, step, rwnd, tsn)| {
+            let mut sends = Vec::new();
+            for _ in 0..warm {
+                sends.push(SendOp { side, chan: 0, task: 0, size, gap_ms: 15 });
+            }
+            for _ in 0..rounds {
+                sends.push(SendOp { side, chan: 0, task: 0, size, gap_ms });
+            }
+            for _ in 0..tail {
+                sends.push(SendOp { side, chan: 0, task: 0, size, gap_ms: 10 });
+            }
+            // DATA packets are numbered per side in sending order, retransmissions included: with one
+            // chunk per round and one repairing retransmission, every `step`-th packet is a first transmission
+            let per_msg = if size > 1172 { 2 } else { 1 } as u16;
+            let first = (warm as u16) * per_msg;
+            let rules = (0..rounds as u16)
+                .map(|k| Rule { from: side, class: SClass::Data, ordinal: first + k * step * per_msg, action: Action::Drop })
+                .collect();
+            Case {
+                w: Workload { chans: vec![chan(100)], sends },
+                n: NetSpec {
+                    rules,
+                    tsn_a: tsn,
+                    tsn_b: tsn,
+                    rwnd,
                     ..NetSpec::default_fast()
                 },
             }
@@ -159,7 +251,17 @@ pub fn judge(c: &Case, r: &RunResult, rec: &CaseRec) -> Check {
         return Err(Fail::new("harness-dtls-not-connected", "DTLS did not connect on a fault-free datagram path"));
     }
     // safety: per (receiver, channel) delivered == prefix of submitted
+    if c.w.chans.iter().any(|ch| ch.rel != Rel::Reliable) {
+        rec.label("pr-background-channel");
+    }
+    if c.n.rwnd < 64 * 1024 {
+        rec.label("small-receive-window");
+    }
     for (ci, ch) in c.w.chans.iter().enumerate() {
+        if ch.rel != Rel::Reliable || !ch.ordered {
+            // background channel: nothing is asserted about it here
+            continue;
+        }
         for recv_side in [Side::A, Side::B] {
             let send_side = recv_side.other();
             let expected: Vec<usize> = c
@@ -327,7 +429,7 @@ fn setup_matrix() -> Vec<Case> {
 
 pub fn run(ctx: &mut Ctx) {
     ctx.level = "exploration";
-    ctx.rule = "proptest-generated (workload, fault plan) pairs run on two real IceConn+DTLS+SCTP endpoints joined by the harness network: 1-3 reliable ordered channels, messages in both directions (sizes 0/1/1171-1173/2344/4-8 KiB/uniform), 0-8 fault rules (drop/dup/delay/hold-back) addressed by side, SCTP chunk class and ordinal incl. INIT/INIT-ACK/COOKIE-ECHO/COOKIE-ACK, forced initial TSNs near 0, 2^31 and 2^32; plus a fixed setup-chunk matrix (4 classes x 7 actions). Non-trivial = at least one fault rule fired; distinct by case digest.".into();
+    ctx.rule = "proptest-generated (workload, fault plan) pairs run on two real IceConn+DTLS+SCTP endpoints joined by the harness network: 1-3 reliable ordered channels (in 35% of cases sharing the association with 1-2 partially reliable background channels whose deliveries are not judged here), receive window 4 KiB - 128 KiB, messages in both directions (sizes 0/1/1171-1173/2344/4-8 KiB/uniform), 0-8 fault rules (drop/dup/delay/hold-back) addressed by side, SCTP chunk class and ordinal incl. INIT/INIT-ACK/COOKIE-ECHO/COOKIE-ACK, forced initial TSNs near 0, 2^31 and 2^32; plus a fixed setup-chunk matrix (4 classes x 7 actions), tail-gap workloads (one early loss, deep out-of-order queue, nothing submitted afterwards) and tail-loss-rounds (6-27 rounds of a lone message whose first transmission is lost, then a perfect network). Non-trivial = at least one fault rule fired; distinct by case digest.".into();
     ctx.assumptions = vec![
         "faults are applied to SCTP packets between DTLS decryption and SCTP input (one SCTP packet per DTLS record per datagram; DTLS has no replay window, so this equals datagram-level faults); the datagram path itself is loss-free".into(),
         "applications send only after the channel announced Open".into(),
@@ -396,6 +498,9 @@ pub fn run(ctx: &mut Ctx) {
     // everything else arrives, nothing is submitted afterwards (recovery must not depend on new DATA)
     let n_tail = ctx.scale(300usize, 4000usize);
     ctx.sub_async(&rt, "tail-gap", n_tail, 32, tail_gap_strategy(), checker(limits));
+    // repeated tail losses on one association (each repaired by the probe / T3 path), small and default windows
+    let n_rounds = ctx.scale(160usize, 2000usize);
+    ctx.sub_async(&rt, "tail-loss-rounds", n_rounds, 40, tail_loss_rounds_strategy(), checker(limits));
     let n_big = ctx.scale(60usize, 600usize);
     ctx.sub_async(&rt, "large-workload", n_big, 12, case_strategy(240, 16 * 1024), checker(limits));
     rt.shutdown_timeout(std::time::Duration::from_secs(2));
